@@ -194,6 +194,65 @@ def shared_layered_architecture(ctx, n):
         ctx.mark_nontrivial(("sharedla", it))
 
 
+def reused_layer_and_diagram_rules(ctx, n):
+    """LayerRule and DiagramRule objects applied to several architectures, interleaved with other rule objects: each
+    evaluation must equal that of a freshly built rule object."""
+    from pytestarch import DiagramRule
+    from harness.props import c07
+    d = common.scratch_dir()
+    try:
+        for it in range(n):
+            rng = ctx.rng
+            # ---- LayerRule (layers by regex and by name) on three architectures
+            c = None
+            for _ in range(10):
+                c = c05.gen_case(random.Random(rng.randrange(1 << 30)))
+                if c is not None:
+                    break
+            if c is not None:
+                hs, _ = c05.histories(dict(c, obj_as_str=False))
+                drop = rng.choice([x for x in c["nodes"] if x != "r"])
+                v2 = [x for x in c["nodes"] if not (x == drop or x.startswith(drop + "."))]
+                archs = [rules.make_arch_direct(c["nodes"], c["edges"]),
+                         rules.make_arch_direct(v2, [(a, b) for a, b in c["edges"] if a in v2 and b in v2]),
+                         rules.make_arch_direct(c["nodes"], c["edges"][: len(c["edges"]) // 2])]
+                for h in rng.sample(hs, min(4, len(hs))):
+                    try:
+                        robj = layers.build_lr(h)
+                    except Exception:  # noqa: BLE001
+                        continue
+                    for k in (0, 1, 2, 0):
+                        got = rules.run_rule(robj, archs[k])
+                        fresh = layers.run_lr_impl(h, archs[k])
+                        ctx.evaluations += 2
+                        if got != fresh:
+                            ctx.violation(dict(nodes=c["nodes"], edges=c["edges"], layers=[list(x) for x in c["arch_calls"]], architecture_index=k,
+                                               reused=got[0], fresh=fresh[0]),
+                                          f"a LayerRule object re-applied to architecture #{k} gives {got[0]}, a fresh one {fresh[0]}", {"kind": "reapply_layer_rule"})
+                            break
+            # ---- DiagramRule objects for two diagrams, interleaved, on two architectures each
+            c1, c2 = c07.gen_case(rng), c07.gen_case(rng)
+            files = []
+            for j, cc in enumerate((c1, c2)):
+                p = c07.write_puml(d, f"d{it}_{j}.puml", cc["comps"], cc["rel"], random.Random(rng.randrange(1 << 30)))
+                p.write_text(p.read_text().replace("@startuml\n", "@startuml\n" + "".join(f"component [{x}]\n" for x in cc["comps"])))
+                files.append(p)
+            objs = [DiagramRule().from_file(files[0]).base_module_included_in_module_names(), DiagramRule().from_file(files[1]).base_module_included_in_module_names()]
+            arch_of = [[rules.make_arch_direct(cc["nodes"], cc["edges"]), rules.make_arch_direct(cc["nodes"], cc["edges"][: len(cc["edges"]) // 2])] for cc in (c1, c2)]
+            for (j, k) in ((0, 0), (1, 0), (0, 1), (1, 1), (0, 0), (1, 0)):
+                got = rules.run_rule(objs[j], arch_of[j][k])
+                fresh = rules.run_rule(DiagramRule().from_file(files[j]).base_module_included_in_module_names(), arch_of[j][k])
+                ctx.evaluations += 2
+                if got != fresh:
+                    ctx.violation(dict(diagram=files[j].read_text(), nodes=(c1, c2)[j]["nodes"], edges=(c1, c2)[j]["edges"], architecture_index=k, reused=got[0], fresh=fresh[0]),
+                                  f"a DiagramRule object re-applied (diagram {j}, architecture {k}) gives {got[0]}, a fresh one {fresh[0]}", {"kind": "reapply_diagram_rule"})
+                    break
+            ctx.mark_nontrivial(("reuse", it))
+    finally:
+        import shutil
+        shutil.rmtree(d, ignore_errors=True)
+
+
 def layer_order_permutations(ctx, n):
     for _ in range(n):
         c = c05.gen_case(ctx.rng)
@@ -339,13 +398,14 @@ def run(ctx: Ctx):
         rules.merge_into(ctx, r)
     layer_order_permutations(ctx, 60 if ctx.quick else 2000)
     shared_layered_architecture(ctx, 60 if ctx.quick else 1500)
+    reused_layer_and_diagram_rules(ctx, 40 if ctx.quick else 1000)
     scan_determinism(ctx, 40 if ctx.quick else 800)
     scan_history(ctx, 60 if ctx.quick else 1500)
     hash_seeds(ctx, 40 if ctx.quick else 600)
     ctx.stat("shared_evaluables", n)
     ctx.rule = (f"{n} shared evaluables (3/4 built directly, 1/4 scanned), each: 40 evaluations drawn from a pool of 14 module-rule shapes + 14 layer-rule shapes, every outcome compared with the same "
                 "evaluation alone on a fresh architecture, snapshot (modules + edges with hierarchy flags) before/after; same rule object re-applied and applied to a second architecture (also rule objects with regex / partial-name filters on architectures where the pattern matches other modules or nothing); all permutations "
-                "(<=6 each) and a duplication of subject/object lists; layer order / module order / object-layer order permuted; one LayeredArchitecture object shared by 25 layer rules (each compared with a freshly defined architecture, str(architecture) unchanged); two scans, permuted exclusion tuples, 3 shuffled Path.iterdir orders; scan of a tree repeated after scans of a different tree with the same module names and of a sub-directory (all import forms); "
+                "(<=6 each) and a duplication of subject/object lists; layer order / module order / object-layer order permuted; LayerRule and DiagramRule objects re-applied to several architectures and interleaved (each compared with a fresh object); one LayeredArchitecture object shared by 25 layer rules (each compared with a freshly defined architecture, str(architecture) unchanged); two scans, permuted exclusion tuples, 3 shuffled Path.iterdir orders; scan of a tree repeated after scans of a different tree with the same module names and of a sub-directory (all import forms); "
                 "8 hash seeds in fresh interpreters (sha256 of all (verdict, message) pairs of a deterministic battery must coincide). This runtime part is checked by execution only (partial): "
                 "the theorems cover the model's order independence and re-application. non-trivial = evaluable whose pool gives different verdicts / distinct scanned trees")
     ctx.notes.append("partial: CPython set/dict iteration, Path.iterdir, networkx freeze are exercised, not proved")
